@@ -187,6 +187,46 @@ def _loading_case(rec, rng, cid, scratch):
                   "loading/folder-order/" + name,
                   "%s returned %s, expected %s" % (name, have, want), case)
         judge_callbacks(rec, cb, case, name)
+    # ---- the listing of (file, enumeration) pairs names the curves that
+    # loading yields, in that order
+    from nanite.read import get_data_paths_enum
+    try:
+        listing = get_data_paths_enum(d)
+    except BaseException as e:  # noqa
+        rec.violation("listing/raises/" + type(e).__name__,
+                      "get_data_paths_enum raised %s" % str(e)[:80], case)
+    else:
+        got = load_data(d)
+        rec.event("path / enumeration listings compared with loaded curves")
+        rec.check([(str(a), int(b)) for a, b in listing] ==
+                  [(str(i.path), int(i.enum)) for i in got],
+                  "listing/not-the-loaded-curves",
+                  "get_data_paths_enum lists %s, loading yields %s"
+                  % ([(pathlib.Path(a).name, int(b)) for a, b in listing][:14],
+                     [(pathlib.Path(i.path).name, int(i.enum))
+                      for i in got][:14]), case)
+    if rng.random() < .35:
+        # a file with more than ten curves: the base library enumerates
+        # them "0, 1, 10, 11, 2, ..." (position != enumeration)
+        big = scratch / ("big_%d_%d.h5" % tuple(cid))
+        write_plain(rng, big, int(rng.integers(11, 14)))
+        try:
+            listing = get_data_paths_enum(big)
+            gotb = load_data(big)
+        except BaseException as e:  # noqa
+            rec.violation("listing/raises/" + type(e).__name__,
+                          "listing / loading a file with more than ten "
+                          "curves raised %s" % str(e)[:80], case)
+        else:
+            rec.event("path / enumeration listings compared with loaded "
+                      "curves")
+            rec.check([(str(a), int(b)) for a, b in listing] ==
+                      [(str(i.path), int(i.enum)) for i in gotb] and
+                      len({int(i.enum) for i in gotb}) == len(gotb),
+                      "listing/not-the-loaded-curves",
+                      "get_data_paths_enum lists enumerations %s, loading "
+                      "yields %s" % ([int(b) for a, b in listing],
+                                     [int(i.enum) for i in gotb]), case)
     # ---- the same folder addressed in other ways: relative to the working
     # directory (with ".."), through a symbolic link below a hidden
     # directory, with a trailing "." component
